@@ -406,6 +406,46 @@ def reelected5(m, w):
     return w
 
 
+def reelected_cache3(m, w):
+    """3 voters, entries larger than the batch size (every command travels in chunks). A=n1 led term 1,
+    appended two commands (4, 5) and chunk-sent both into a black hole (optimistic next index). B=n2 was
+    elected with C's vote, C=n3 received B's no-op (4) and was then cut off. A rejoined B, dropped its
+    two commands and adopted B's no-op (4) and B's own command (5), committed by A+B. A leads again
+    (term 3, vote of B). C still lacks 5 (a chunked command) and 6; the explorer reconnects it: whatever A kept per log index
+    from its first leadership (position 5 held another command then) must not be sent now."""
+    A, B, C = N1, N2, N3
+    hb = m.cfg.period + 0.001
+    el = m.cfg.tmin + 0.001
+    w = steady(m, w, 1, A)
+    w = blackhole(m, w, A)
+    w = m.do(w, ('S', A, 'free'), ('S', A, 'free'), ('Z', A))
+    for _ in range(3):
+        w = m.do(w, ('T', A, hb))
+    # B campaigns, C votes, B wins; C is cut off before B's first append_entries reaches it
+    w = m.do(w, ('T', B, el))
+    w = m.do(w, ('D', B, C), ('D', C, B))
+    if not m.summary(w, B).leader_flag:
+        m.seed_shape_ok = False
+    w = m.do(w, ('D', B, C))          # C stores B's no-op (4) and nothing after it
+    w = m.cut(w, B, C)
+    if m.summary(w, C).last != 4:
+        m.seed_shape_ok = False
+    # A notices its dead connections and rejoins B
+    w = m.isolate(w, A)
+    w = m.do(w, ('R', A, B, 'free'))
+    w = m.drain(w, only=[A, B], ticks=False)
+    w = beat(m, w, B, only=[A, B], times=4)
+    w = submit(m, w, B, 1, only=[A, B])
+    w = beat(m, w, B, only=[A, B], times=3)
+    # A is elected again by B
+    w = m.do(w, ('T', A, el))
+    w = m.drain(w, only=[A, B])
+    w = beat(m, w, A, only=[A, B], times=3)
+    if not m.summary(w, A).leader_flag:
+        m.seed_shape_ok = False
+    return w
+
+
 def stalled_old_code(m, w, leader=N1):
     """Mixed cluster (last voter runs old code): the cluster switched to a version the old node lacks
     and committed two more commands; the old node is stalled at the switch (applied < commit)."""
@@ -537,7 +577,7 @@ def candidates(m, w, who=(N1, N2)):
     return w
 
 
-SEEDS = dict(deposed_obs=deposed_obs, voted=voted, stalled_old_code=stalled_old_code, reelected5=reelected5, stale_reset5=stale_reset5, stale_vote5=stale_vote5, stale_snapshot=stale_snapshot, ahead_full=ahead_full, fig8_full=fig8_full, candidates=candidates, battery_lagsnap=battery_lagsnap, ahead=ahead, lagging_newleader=lagging_newleader, m_deposed=m_deposed, split=split, version_snap=version_snap, fresh=fresh, steady=steady, lagging=lagging, lagging_snap=lagging_snap, deposed=deposed,
+SEEDS = dict(reelected_cache3=reelected_cache3, deposed_obs=deposed_obs, voted=voted, stalled_old_code=stalled_old_code, reelected5=reelected5, stale_reset5=stale_reset5, stale_vote5=stale_vote5, stale_snapshot=stale_snapshot, ahead_full=ahead_full, fig8_full=fig8_full, candidates=candidates, battery_lagsnap=battery_lagsnap, ahead=ahead, lagging_newleader=lagging_newleader, m_deposed=m_deposed, split=split, version_snap=version_snap, fresh=fresh, steady=steady, lagging=lagging, lagging_snap=lagging_snap, deposed=deposed,
              deposed_snap=deposed_snap, deposed_twice=deposed_twice, pending=pending, reconnect_pipeline=reconnect_pipeline,
              forwarded=forwarded, fig8=fig8)
 
